@@ -17,14 +17,15 @@ import (
 // C11 — parsing is total and prompt: every byte string yields a program or an error.
 
 type caseText struct {
-	Text string
-	Kind string
+	Text  string
+	Kind  string
+	Scale *gen.Scale // for size-driven inputs: how to rebuild the same shape at another size
 }
 
 var posRe = regexp.MustCompile(`\d+:\d+`)
 
 func parseBound(n int) time.Duration {
-	return 500*time.Millisecond + time.Duration(n)*50*time.Microsecond
+	return 300*time.Millisecond + time.Duration(n)*15*time.Microsecond
 }
 
 func short(s string, n int) string {
@@ -70,14 +71,32 @@ func checkC11(h *harness.H, ci interface{}) *harness.Failure {
 				return harness.Failf("syntax error without a position: %q\ninput: %q", r.ParseErr, short(c.Text, 300))
 			}
 		}
-		if d := time.Duration(r.ParseUs) * time.Microsecond; d > parseBound(len(c.Text)) {
-			// re-measure alone before believing it
-			r2 := h.Alone(req, 60*time.Second)
-			if r2.Outcome == pool.OK && time.Duration(r2.Resp.ParseUs)*time.Microsecond <= parseBound(len(c.Text)) {
+		// Thread CPU time, so that a busy machine cannot make a parse look slow. The absolute bound is
+		// only a trigger: contention still inflates CPU time, so the verdict comes from a scaling
+		// experiment (same shape at n and 2n, measured back to back in a fresh worker).
+		if d := time.Duration(r.ParseCPUUs) * time.Microsecond; d > parseBound(len(c.Text)) {
+			if c.Scale != nil && c.Scale.Count >= 8 {
+				ratio, t1, t2, ok := scalingExperiment(h, c.Scale)
+				if !ok {
+					return &harness.Failure{Inconclusive: true, Msg: "scaling experiment failed"}
+				}
+				if t2 > 400*time.Millisecond && ratio > 3.0 {
+					return harness.Failf("parsing time grows faster than linearly: %s input with n=%d takes %v of CPU, with n=%d it takes %v (x%.1f for twice the size; best of 3, measured alone)\ninput: %q", c.Kind, c.Scale.Count, t1, 2*c.Scale.Count, t2, ratio, short(c.Text, 300))
+				}
+				h.S.Count("slow_but_linear")
+				return nil
+			}
+			hard := 10*time.Second + time.Duration(len(c.Text))*50*time.Microsecond
+			if d <= hard {
+				h.S.Count("slow_below_hard_bound")
+				return nil
+			}
+			r2 := h.Alone(req, 300*time.Second)
+			if r2.Outcome == pool.OK && time.Duration(r2.Resp.ParseCPUUs)*time.Microsecond <= hard {
 				h.S.Count("slow_not_reproduced")
 				return nil
 			}
-			return harness.Failf("parsing %d bytes took %v (bound %v), reproduced alone (%s)\ninput: %q", len(c.Text), d, parseBound(len(c.Text)), r2.Outcome, short(c.Text, 300))
+			return harness.Failf("parsing %d bytes took %v of CPU time (bound %v), reproduced alone (%s)\ninput: %q", len(c.Text), d, hard, r2.Outcome, short(c.Text, 300))
 		}
 		return nil
 	case pool.Infra:
@@ -101,6 +120,38 @@ func checkC11(h *harness.H, ci interface{}) *harness.Failure {
 	return harness.Failf("%s (kind %s, %d bytes)\ninput: %q\nstderr: %s", what, c.Kind, len(c.Text), short(c.Text, 400), harness.Brief(r2.Stderr))
 }
 
+// scalingExperiment parses the shape at n and 2n three times each in a fresh worker and
+// returns the ratio of the best CPU times.
+func scalingExperiment(h *harness.H, sc *gen.Scale) (ratio float64, t1, t2 time.Duration, ok bool) {
+	w, err := pool.Start(h.Opts())
+	if err != nil {
+		return 0, 0, 0, false
+	}
+	defer w.Kill()
+	best := func(n int) (time.Duration, bool) {
+		text := sc.Build(n)
+		b := time.Duration(0)
+		for i := 0; i < 3; i++ {
+			res := w.Call(&wire.Req{Op: "parse", Text: text}, 600*time.Second)
+			if res.Outcome != pool.OK {
+				return 0, false
+			}
+			d := time.Duration(res.Resp.ParseCPUUs) * time.Microsecond
+			if b == 0 || d < b {
+				b = d
+			}
+		}
+		return b, true
+	}
+	var ok1, ok2 bool
+	t1, ok1 = best(sc.Count)
+	t2, ok2 = best(2 * sc.Count)
+	if !ok1 || !ok2 || t1 <= 0 {
+		return 0, t1, t2, false
+	}
+	return float64(t2) / float64(t1), t1, t2, true
+}
+
 func TestC11(t *testing.T) {
 	harness.Run(t, harness.Prop{
 		ID:  "C11",
@@ -115,8 +166,8 @@ func TestC11(t *testing.T) {
 				}
 				return g.Program().Text(st)
 			}
-			txt, kind := d.Text(base)
-			c := &caseText{Text: txt, Kind: kind}
+			txt, kind, sc := d.TextScaled(base)
+			c := &caseText{Text: txt, Kind: kind, Scale: sc}
 			if len(txt) < 600 {
 				h.S.Sample(c)
 			}
